@@ -760,7 +760,10 @@ def documented(case, el):
         any_scheme = schemes is None or tuple(schemes) == ("*",)
         allowed = set(URL_PARTS if v.get("allowed_parts") is None else v["allowed_parts"])
         violated = []
-        if url.scheme == "" or not (any_scheme or url.scheme in schemes):
+        # "Restrict URLs to just this sequence of named schemes, or allow all schemes with ('*',)"; "blocked_scheme:
+        # emitted if the URL scheme: is not present in allowed_schemes" — membership (also of the empty scheme of a
+        # scheme-relative URL when '' is listed: KF-C15-g); with the wildcard every SCHEME is allowed, no scheme is none
+        if (url.scheme == "") if any_scheme else (url.scheme not in schemes):
             violated.append("blocked_scheme")
         if {p for p in URL_PARTS if getattr(url, p) != ""} - allowed:
             violated.append("blocked_part")
@@ -769,27 +772,7 @@ def documented(case, el):
         # docstring: all_parts — the known URL parts.  required_parts — True: the part is required; a sequence: the
         # value must be in it.  forbidden_parts — True: the part is forbidden; a sequence: the value must not be in it.
         # An element without a value has no part at all.  (False / None / an empty sequence: no rule.)
-        req, forb, known_parts = _http_params(v)
-        if any(p not in HTTP_VOCABULARY for p in known_parts):
-            return None, None  # all_parts outside urlparse's vocabulary: no promise
-        if el.value is None:
-            vals = {p: None for p in HTTP_VOCABULARY}
-        else:
-            try:
-                parsed = lib.urlparse(el.value)
-            except ValueError:
-                return False, (["bad_format"], {})
-            except Exception:
-                return None, None  # a stand-in urlparse raising something else: not "an unparseable URL"
-            vals = _http_part_values(parsed)
-        violated = []
-        if any(vals[p] is ValueError for p in known_parts):
-            violated.append("bad_format")
-        if any(not _required_holds(req.get(p), vals[p]) for p in known_parts if vals[p] is not ValueError):
-            violated.append("required_part")
-        if any(not _forbidden_holds(forb.get(p), vals[p]) for p in known_parts if vals[p] is not ValueError):
-            violated.append("forbidden_part")
-        return not violated, (violated, {})
+        return _http_documented(v, el.value, lib)
     if cls == "URLCanonicalizer" and kind == "String":
         discard = v.get("discard_parts")
         if discard is not None and not discard:
@@ -837,20 +820,72 @@ def _http_part_values(parsed):
     return vals
 
 
-def _required_holds(rule, value):
+def _present(value):
+    """'the URL has the part' — stated once, for all ten names and for both mappings: the part has a non-empty value
+    (required_part: 'emitted if URL is MISSING a part'; forbidden_part: 'emitted if URL CONTAINS a part').  The six
+    tuple items are '' when the URL does not have them, the derived attributes None (or '': http://@h/)."""
+    return value is not None and value != ""
+
+
+def _required_holds(rule, value, true_code=False, empty_code=False):
+    """'If value is True, the part is required.  The value may also be a sequence of strings; the value of the part
+    must be present in this collection to validate.'  (False / None: no rule.)
+    true_code / empty_code: the CODE's readings (`value is None`; an empty collection is skipped) — used only to
+    predict the verdict of the open findings KF-C15-c / KF-C15-d"""
     if rule is True:
-        return value is not None
-    if not rule:
+        return (value is not None) if true_code else _present(value)
+    if rule is None or rule is False:
+        return True
+    if empty_code and len(rule) == 0:
         return True
     return value in rule
 
 
 def _forbidden_holds(rule, value):
+    """'If value is True, the part is forbidden and validation fails.  The value may also be a sequence of strings;
+    the value of the part must not be present in this collection.'"""
     if rule is True:
-        return not value
-    if not rule:
+        return not _present(value)
+    if rule is None or rule is False:
         return True
     return value not in rule
+
+
+def _http_documented(v, value, lib, true_code=False, empty_code=False):
+    req, forb, known_parts = _http_params(v)
+    if any(p not in HTTP_VOCABULARY for p in known_parts):
+        return None, None  # all_parts outside urlparse's vocabulary: no promise
+    if value is None:
+        vals = {p: None for p in HTTP_VOCABULARY}
+    else:
+        try:
+            parsed = lib.urlparse(value)
+        except ValueError:
+            return False, (["bad_format"], {})
+        except Exception:
+            return None, None  # a stand-in urlparse raising something else: not "an unparseable URL"
+        vals = _http_part_values(parsed)
+    violated = []
+    if any(vals[p] is ValueError for p in known_parts):
+        violated.append("bad_format")
+    if any(not _required_holds(req.get(p), vals[p], true_code, empty_code) for p in known_parts if vals[p] is not ValueError):
+        violated.append("required_part")
+    if any(not _forbidden_holds(forb.get(p), vals[p]) for p in known_parts if vals[p] is not ValueError):
+        violated.append("forbidden_part")
+    return not violated, (violated, {})
+
+
+def _http_quirks(v, value, lib):
+    """which of the classes KF-C15-c (True entry of required_parts on a known part that is the empty text) and
+    KF-C15-d (empty collection as entry for a known part) the case is in"""
+    req, _, known_parts = _http_params(v)
+    try:
+        vals = _http_part_values(lib.urlparse(value))
+    except Exception:
+        return False, False
+    c = any(req.get(p) is True and vals[p] == "" for p in known_parts)
+    d = any(isinstance(req.get(p), (list, tuple)) and len(req.get(p)) == 0 and vals[p] is not ValueError for p in known_parts)
+    return c, d
 
 
 def _kept_parts(parsed, discard):
@@ -888,6 +923,11 @@ def oracle_case(case):
     cls = case["v"]["cls"]
     want, msg = documented(case, el_before(case) if cls == "URLCanonicalizer" else el)
     if want is None:
+        if cls in ("URLValidator", "HTTPURLValidator") and obs["raise"] is None and case["build"]["kind"] in SCALARS + NUMERIC \
+                and not (obs["_value_unchanged"] and obs["_u_unchanged"]):
+            # "apart from the canonicalising URL validator no validator changes the element's value": every element
+            # kind and value, also those the class is not documented for (Integer(0), Boolean(False) …)
+            fails.append({"clause": "value-unchanged", "expected": obs["_value_before"], "observed": obs["value_after"]})
         return fails
     if obs["raise"] is not None:
         fails.append({"clause": "returns-a-verdict-without-raising", "expected": want, "observed": obs["raise"]})
@@ -950,10 +990,12 @@ def el_before(case):
 
 
 def _canonical_clauses(case, obs, el, validator):
-    """URLCanonicalizer: 'Given a valid URL, re-writes it with unwanted parts removed' — the new value is the rebuild
-    (urlunparse) of the parsed parts with every member of discard_parts emptied; the value is untouched when the
-    verdict is not True; and canonicalising the canonical text again changes nothing whenever that text parses back to
-    the parts it was built from"""
+    """URLCanonicalizer: 'Given a valid URL, re-writes it with unwanted parts removed' — the value is untouched when
+    the verdict is not True; the new value is the rebuild (urlunparse) of the parsed parts with every member of
+    discard_parts emptied; and the promise about the RESULT (standard urlunparse): read as a URL again it (a) has none
+    of the discarded parts, (b) has every other part as the original had it, and (c) canonicalising it again changes
+    nothing (it IS the canonical form).  No gating on 'the rebuild parses back': where it does not, (a)-(c) fail and
+    that is KF-C15-e."""
     fails = []
     val = obs["_value_before"]
     v = case["v"]
@@ -967,23 +1009,47 @@ def _canonical_clauses(case, obs, el, validator):
         fails.append({"clause": "value-untouched-on-failure", "expected": val, "observed": obs["value_after"]})
     if isinstance(val, str) and discard and obs["verdict"] is True and all(p in URL_PARTS for p in discard):
         try:
-            kept = _kept_parts(lib.urlparse(val), discard)
+            orig = list(lib.urlparse(val))
+            kept = _kept_parts(orig, discard)
             exp = _jval(lib.urlunparse(kept))
         except Exception:
-            kept = exp = None
+            orig = kept = exp = None
         if kept is not None and obs["value_after"] != exp:
             fails.append({"clause": "canonical-url", "expected": exp, "observed": obs["value_after"]})
-        if kept is not None and isinstance(el.value, str):
+        if kept is not None and std and isinstance(el.value, str):
+            first = el.value
             try:
-                stable = list(lib.urlparse(el.value)) == kept
-            except Exception:
-                stable = False
-            if stable:
-                first = el.value
-                again = validator(el, None)
-                if again is not True or el.value != first:
-                    fails.append({"clause": "canonical-url-is-stable", "expected": first, "observed": _jval(el.value)})
+                again_parts = list(lib.urlparse(first))
+            except Exception as e:
+                again_parts = None
+                fails.append({"clause": "canonical-url-parses", "expected": kept, "observed": type(e).__name__})
+            if again_parts is not None:
+                left = [p for i, p in enumerate(URL_PARTS) if p in discard and again_parts[i] != ""]
+                if left:
+                    fails.append({"clause": "canonical-url-has-no-discarded-part", "expected": kept, "observed": again_parts})
+                moved = [p for i, p in enumerate(URL_PARTS) if p not in discard and again_parts[i] != orig[i]]
+                if moved:
+                    fails.append({"clause": "canonical-url-keeps-the-other-parts", "expected": kept, "observed": again_parts})
+            again = validator(el, None)
+            if again is not True or el.value != first:
+                fails.append({"clause": "canonical-url-is-stable", "expected": first, "observed": _jval(el.value)})
     return fails
+
+
+def _roundtrip_fails(case):
+    """class predicate of KF-C15-e, from the case alone (the standard library, not the validator): the six parts the
+    canonical URL is rebuilt from do not survive urlunparse -> urlparse"""
+    v = case["v"]
+    val = case["view"].get("value")
+    discard = v.get("discard_parts")
+    discard = ["fragment"] if discard is None else discard
+    if not isinstance(val, str) or (v.get("lib") or {}).get("unparse") or (v.get("lib") or {}).get("parse_raises"):
+        return False
+    try:
+        kept = _kept_parts(list(_urlparse.urlparse(val)), discard)
+        return list(_urlparse.urlparse(_urlparse.urlunparse(kept))) != kept
+    except Exception:
+        return True
 
 
 # ------------------------------------------------------------------ generators
@@ -1395,10 +1461,20 @@ _RULE_VALUES = {"scheme": [["http", "https"], ["https"], ["https", ""], ["ftp"]]
                 "username": [["u"]], "password": [["p"]], "query": [["q=1"]], "fragment": [["f"]], "params": [["x"]]}
 
 
+_SLASHY = ["////", "//", "///", "h:////", "h://", "h:", "http:////evil.example/p#f", "http:///p", "http:", "https:////h/p?q#f", "x:y:z",
+           "//h//p", "/a//b", "http://h//p#f", ":", "a:b#c", "///#f", "http:/p", "http:p", "//;x", "//?q", "http://h;x#f", "////h#f"]
+
+
 def rand_url_text(rng):
     r = rng.random()
     if r < 0.2:
         return rng.choice(URLS)
+    if r < 0.3:
+        # slash runs, empty netloc, scheme-only, a path that reads as something else once rebuilt
+        if rng.random() < 0.6:
+            return rng.choice(_SLASHY)
+        return (rng.choice(["", "", "http:", "h:", "https:", "x-y:"]) + "/" * rng.randint(0, 5) + rng.choice(["", "h", "evil.example", "a:b"]) +
+                rng.choice(["", "/p", "//p", ";x"]) + rng.choice(_QUERIES) + rng.choice(_FRAGMENTS))
     return (rng.choice(_WS) + rng.choice(_SCHEMES) + rng.choice(["://", "://", "://", ":", ""]) + rng.choice(_USERINFO) +
             rng.choice(_HOSTS) + rng.choice(_PORTS) + rng.choice(_PATHS) + rng.choice(_QUERIES) + rng.choice(_FRAGMENTS) + rng.choice(_WS))
 
@@ -1428,7 +1504,7 @@ def rand_url_case(rng, cls):
     v = {"cls": cls}
     if cls == "URLValidator":
         if rng.random() < 0.6:
-            v["allowed_schemes"] = rng.choice([["http", "https"], ["ftp"], ["*"], [], ["*", "http"], ["HTTP"], ["http"], ["https", "x-y", "mailto"]])
+            v["allowed_schemes"] = rng.choice([["http", "https"], ["ftp"], ["*"], [], ["*", "http"], ["HTTP"], ["http"], ["https", "x-y", "mailto"], ["", "http"], ["", "http", "https"], ["*", "x"]])
         if rng.random() < 0.6:
             v["allowed_parts"] = rng.sample(URL_PARTS, rng.randint(0, 6))
             if rng.random() < 0.1:
@@ -1542,9 +1618,44 @@ def url_tags(case, obs):
             t.append("url-canonical=rewritten")
         elif obs.get("verdict") is True:
             t.append("url-canonical=same-text")
+    val = case["view"].get("value")
+    if val is not None and not isinstance(val, str):
+        t.append("url-nontext=" + ("falsy" if not val else "truthy") + ":" + v["cls"])
+    if isinstance(val, str) and case["build"]["kind"] == "String":
+        lib_ = lib_of(v) or _urlparse
+        if v["cls"] == "HTTPURLValidator":
+            in_c, in_d = _http_quirks(v, val, lib_)
+            if in_c:
+                t.append("class:KF-C15-c(required True on an empty part)")
+            if in_d:
+                t.append("class:KF-C15-d(required empty collection)")
+        if v["cls"] == "URLValidator" and v.get("allowed_schemes") is not None and "" in v["allowed_schemes"]:
+            t.append("url-param:allowed_schemes-lists-empty")
+            if six_scheme_empty(lib_, val):
+                t.append("class:KF-C15-g(no scheme, '' listed)")
+        if v["cls"] == "URLCanonicalizer" and _roundtrip_fails(case):
+            t.append("class:KF-C15-e(rebuild does not parse back)")
     if v.get("note") == "warning":
         t.append("note_warning")
     return t
+
+
+def _predict_blocked_scheme(case):
+    """the error list KF-C15-g predicts: the earlier ones plus the blocked_scheme text (unless empty / already there)"""
+    v = case["v"]
+    pre = list(case.get("pre_warnings" if v.get("note") == "warning" else "pre_errors", []))
+    tmpl = dict((k, m) for k, m in v.get("messages", [])).get("blocked_scheme", "%(label)s is not a valid URL.")
+    if not isinstance(tmpl, str):
+        return None
+    text = tmpl.replace("%(label)s", str(case["view"].get("label")))
+    return pre if (tmpl == "" or text in pre) else pre + [text]
+
+
+def six_scheme_empty(lib, val):
+    try:
+        return lib.urlparse(val.strip()).scheme == ""
+    except Exception:
+        return False
 
 
 def rand_net_case(rng):
@@ -1607,7 +1718,11 @@ def hostile_case(rng):
     r = rng.random()
     if r < 0.25:
         c = rand_scalar_case(rng)
-        c["v"] = {"cls": rng.choice(["NotDuplicated", "HasAtLeast", "Luhn10", "IsEmail", "URLValidator", "HTTPURLValidator"])}
+        c["v"] = {"cls": rng.choice(["NotDuplicated", "HasAtLeast", "Luhn10", "IsEmail", "URLValidator", "HTTPURLValidator", "URLCanonicalizer",
+                                      "URLValidator", "HTTPURLValidator"])}
+        if c["v"]["cls"] in URL_KEYS and rng.random() < 0.5:
+            # falsy values that are not text: urlparse(0) / urlparse(False) do not raise (they parse as bytes)
+            c["build"] = {"kind": rng.choice(["Integer", "Boolean"]), "name": "x", "set": rng.choice([0, False, "0", "false", 5, True])}
         return c
     if r < 0.5:
         c = rand_fields_case(rng)
@@ -1745,10 +1860,15 @@ class C15(Property):
     proof_module = "Proofs.C15"
     theorems = ["Flatland.C15.Proofs." + t for t in (
         "decides_partial", "C15_partial", "C15_full_fails", "setWith_nontext_key_reported", "setWith_bad_pairs_valid",
-        "decides_urlValidator", "urlValidate_eq", "urlPartsLoop_eq",
+        "decides_urlValidator_partial", "schemeAllowed_eq_code", "C15_empty_scheme_always_blocked", "C15_UrlFull_fails", "urlValidate_eq", "urlPartsLoop_eq",
+        "requiredHolds_eq_code", "required_true_on_empty_differs", "required_empty_collection_differs", "partOkDoc_eq_code",
+        "C15_required_true_never_fails", "C15_required_empty_collection_ignored", "C15_HttpFull_fails_with_value", "C15_full_fails_with_value",
+        "http_rule_honoured_default_partial", "C15_HttpRuleHonoured_fails",
+        "canonicalizer_idempotent_partial", "canonicalizer_faithful_partial", "canonicalizer_not_idempotent", "canonicalizer_idempotent_fails",
+        "canonicalizer_faithful_fails", "canonicalizer_changes_host",
         "decides_httpURL_partial", "httpURL_key", "httpPartsLoop_eq", "attr_table", "http_no_value_accepted", "C15_HttpFull_fails",
-        "http_rule_honoured_partial", "http_rule_honoured", "http_netloc_before_later_parts",
-        "decides_urlCanonicalizer", "canonicalizer_value", "canonicalizer_failure_keeps_value", "canonicalizer_idempotent",
+        "http_rule_honoured_partial", "http_netloc_before_later_parts",
+        "decides_urlCanonicalizer", "canonicalizer_value", "canonicalizer_failure_keeps_value",
         "blankLoop_ok", "blankLoop_bad", "canonical_has_no_fragment", "value_preserved", "warn_eq_error", "verdict_ignores_validation_state", "notdup_ignores_valid",
         "decides_isEmail", "isEmail_length_on_idna", "isEmail_accepts_short_idna",
         "messages", "messages_total", "false_verdict_records_one", "true_verdict_records_nothing", "expansion_of_chosen",
@@ -1776,8 +1896,9 @@ class C15(Property):
     assumptions = [
         "the model covers String/Integer/Boolean scalars, List/Array of them, Dict of them, with int/str/bool parameters; Float and Decimal elements and float/Decimal parameters (inf, nan, sNaN, non-integral, 1e999) are generated but oracle-only (tag model=oracle-only): the Lean `Val` has no such numbers",
         "MapEqual field paths are plain child names resolved by the harness (path evaluation is C14's subject)",
-        "network validators on non-text values are not compared with the model",
-        "HTTPURLValidator: `required_parts[part] is True` is read as the code reads it — the part has a value (is not None); for the six tuple parts, which are '' when absent, such a rule never fails (noted, not counted as a finding: tests/validation/test_network.py uses '' as a legitimate scheme value)",
+        "URL validators on values that are not text: URLValidator is modelled and compared (`.strip()` fails inside its try: bad_format); HTTPURLValidator and URLCanonicalizer hand the value to urlparse as it is — 0 / False / 0.0 / b'' parse as BYTES (HTTPURLValidator: False with required_part; URLCanonicalizer: True and the element's value becomes b''), other numbers raise AttributeError (HTTPURLValidator) / give bad_format (URLCanonicalizer): the model answers Raise.unsupported there, the cases are generated (Integer / Boolean elements holding 0 / False / 5 / True) but oracle-only, and the theorems canonicalizer_failure_keeps_value / value_preserved carry the hypothesis Spec.inModel (text or no value).  Oracle clause for them: URLValidator / HTTPURLValidator leave value and u unchanged on every element kind",
+        "URLCanonicalizer storing b'' in an Integer(0) / Boolean(False) element is OUTSIDE the property's quantifier, not a finding: its docstring is about 'a valid URL' (a text value), C15 itself exempts the canonicalising validator from 'no validator changes the element's value', and nothing is promised for a validator applied to an element kind it is not documented for (recorded in NOTES-m2 as an observation with the witness)",
+        "'the URL has the part' is read once for required_parts and forbidden_parts and for all ten names: the part has a non-empty value (the six tuple items are '' when absent, derived attributes None or ''); allowed_schemes: the wildcard is exactly the one-item sequence ('*',) as the docstring writes it — ('*', 'x') restricts to the names '*' and 'x' (code and docstring agree); a LIST ['*'] (the attribute is documented as a 'sequence') blocks everything in the code: not generated (the harness always passes tuples), noted in NOTES-m2",
         "stand-in urlparse objects are the standard functions with listed deviations (urlparse raising ValueError/TypeError/KeyError, derived attributes overridden or raising ValueError, urlunparse returning other text / None / raising); note_warning is exercised by rebinding note_error to the real Validator.note_warning on 5% of the cases",
         "never generated: custom comparator/transform/domain_pattern objects, NotDuplicated on container members, MapEqual with nested or '..' paths (path evaluation is C14's), ValueIn with set/dict containers (a str container is modelled)",
         "IsEmail: the docstring says the IDN domain must be 'less than 253 characters', the code accepts exactly 253; spec B and the oracle follow the code's reading (<= 253, the DNS limit) — a documentation discrepancy, not counted as a finding",
@@ -2028,6 +2149,36 @@ class C15(Property):
                 and cl == "verdict-equals-documented-condition" and failure.get("observed") is True \
                 and failure.get("_errors_unchanged") and failure.get("_warnings_unchanged") and failure.get("_value_unchanged"):
             return "KF-C15-a"
+        unchanged = failure.get("_errors_unchanged") and failure.get("_warnings_unchanged") and failure.get("_value_unchanged")
+        if v["cls"] == "HTTPURLValidator" and isinstance(view.get("value"), str) and case["build"]["kind"] == "String" \
+                and cl == "verdict-equals-documented-condition" and failure.get("expected") is False \
+                and failure.get("observed") is True and unchanged:
+            # KF-C15-c / -d: the case is in the class AND the code's reading of exactly that entry predicts True
+            lib = lib_of(v) or _urlparse
+            in_c, in_d = _http_quirks(v, view["value"], lib)
+            if in_c and _http_documented(v, view["value"], lib, true_code=True)[0] is True:
+                return "KF-C15-c"
+            if in_d and _http_documented(v, view["value"], lib, empty_code=True)[0] is True:
+                return "KF-C15-d"
+            if in_c and in_d and _http_documented(v, view["value"], lib, true_code=True, empty_code=True)[0] is True:
+                return "KF-C15-c"
+        if v["cls"] == "URLValidator" and isinstance(view.get("value"), str) and case["build"]["kind"] == "String" \
+                and ((cl == "verdict-equals-documented-condition" and failure.get("expected") is True
+                      and failure.get("observed") is False and failure.get("_value_unchanged"))
+                     or (cl == "false-verdict-records-the-one-message" and failure.get("observed") == _predict_blocked_scheme(case))):
+            # (the second form: the docstring's predicate is False for another reason — a part not allowed — and the
+            # message noted is nevertheless the blocked_scheme one)
+            # KF-C15-g: no scheme, '' listed in allowed_schemes (not the wildcard)
+            sch = v.get("allowed_schemes")
+            try:
+                no_scheme = (lib_of(v) or _urlparse).urlparse(view["value"].strip()).scheme == ""
+            except Exception:
+                no_scheme = False
+            if sch is not None and tuple(sch) != ("*",) and "" in sch and no_scheme:
+                return "KF-C15-g"
+        if v["cls"] == "URLCanonicalizer" and cl in ("canonical-url-has-no-discarded-part", "canonical-url-keeps-the-other-parts",
+                                                      "canonical-url-is-stable", "canonical-url-parses") and _roundtrip_fails(case):
+            return "KF-C15-e"
         b = case["build"]
         if v["cls"] == "NotDuplicated" and b.get("member") == "Decimal" and "index" in b \
                 and cl == "returns-a-verdict-without-raising" and failure.get("observed") == "InvalidOperation" \
